@@ -473,7 +473,7 @@ def import_dobs_string(content, full_output=False, separator_insertion=True):
             R = int(dobs[k][1].text.strip())
             for i in range(2, 2 + R):
                 deltas, rname, idx = _import_rdata(dobs[k][i])
-                if separator_insertion is None or False:
+                if separator_insertion is None or separator_insertion is False:
                     pass
                 elif separator_insertion is True:
                     if rname.startswith(ename):
